@@ -86,6 +86,9 @@ func infoFromCell(cell *hrpc.Cell) (hrpc.RegionInfo, error) {
 		return nil, fmt.Errorf("unsupported region info version %d in %q", value[0], cell)
 	}
 	const pbufMagic = 1346524486 // 4 bytes: "PBUF"
+	if len(value) < 4 {
+		return nil, fmt.Errorf("invalid magic number in %q", cell)
+	}
 	magic := binary.BigEndian.Uint32(value[:4])
 	if magic != pbufMagic {
 		return nil, fmt.Errorf("invalid magic number in %q", cell)
@@ -97,6 +100,9 @@ func infoFromCell(cell *hrpc.Cell) (hrpc.RegionInfo, error) {
 	}
 	if regInfo.GetOffline() {
 		return nil, OfflineRegionError{n: string(cell.Row)}
+	}
+	if regInfo.TableName == nil {
+		return nil, fmt.Errorf("no table name in %q", cell)
 	}
 	var namespace []byte
 	if !bytes.Equal(regInfo.TableName.Namespace, defaultNamespace) {
